@@ -231,14 +231,11 @@ func CellBatches(tier string, emit func(BatchCase)) {
 	}
 	// N = 2
 	menu2 := full
-	if tier == "quick" {
-		menu2 = []int{0, 1, 2, 3, 5, 7, 8, 10}
-	}
 	for _, comp := range []bool{false, true} {
 		ProductOf(2*nf, menu2, func(v []int) {
 			modes := ChunkModesSmall
 			if tier == "quick" {
-				modes = []uint32{1, 2, 1026}
+				modes = []uint32{1, 2, 1025, 1026}
 			}
 			for _, mode := range modes {
 				emit(BatchCase{Fam: "cells", N: 2, Cells: v, Comp: comp, Opt: 0, Mode: mode})
@@ -246,15 +243,15 @@ func CellBatches(tier string, emit func(BatchCase)) {
 		})
 	}
 	// N = 3
-	menu3 := ReducedCells
+	menu3 := []int{0, 1, 3, 5, 7, 8, 10}
 	if tier == "quick" {
-		menu3 = []int{0, 3, 5}
+		menu3 = ReducedCells
 	}
 	for _, comp := range []bool{false, true} {
 		ProductOf(3*nf, menu3, func(v []int) {
 			modes := []uint32{1, 2, 3, 1025}
 			if tier == "quick" {
-				modes = []uint32{2}
+				modes = []uint32{2, 1025}
 			}
 			for _, mode := range modes {
 				emit(BatchCase{Fam: "cells", N: 3, Cells: v, Comp: comp, Opt: 7, Mode: mode})
@@ -265,14 +262,14 @@ func CellBatches(tier string, emit func(BatchCase)) {
 
 // ColumnBatches enumerates the "column" family (one field, N documents).
 func ColumnBatches(tier string, emit func(BatchCase)) {
-	maxN := 7
+	maxN := 8
 	if tier == "quick" {
-		maxN = 5
+		maxN = 6
 	}
 	for n := 4; n <= maxN; n++ {
 		Product(n, 4, func(v []int) {
 			modes := []uint32{1, 2, 3, 1024}
-			if tier == "quick" || n == 7 {
+			if tier == "quick" || n >= 7 {
 				modes = []uint32{2, 3}
 			}
 			for _, mode := range modes {
